@@ -33,6 +33,10 @@ def media(ct):
     return ct.split(';')[0].strip().lower()
 
 
+class SetupFailed(Exception):
+    """initialising the integration (init_app / freeze / mounting) raised"""
+
+
 class Integration:
     """one integration with its dispatcher; register(methods) -> post(path, body, content_type)"""
 
@@ -93,6 +97,14 @@ class Integration:
     def ready(self):
         if self._ready:
             return
+        try:
+            self._make_ready()
+        except SetupFailed:
+            raise
+        except Exception as e:   # noqa  - the integration's own initialisation refused a documented arrangement
+            raise SetupFailed('%s: %r' % (self.kind, e)) from e
+
+    def _make_ready(self):
         self._ready = True
         if self.kind == 'flask':
             if self.mount:
